@@ -154,7 +154,31 @@ fn docs(args: &[String]) {
                 }
                 if !gmembers.is_empty() {
                     next += 1;
-                    comp.push(json!({"cnum": next, "members": gmembers}));
+                    let cnum = next;
+                    let mut group = json!({"cnum": cnum, "members": gmembers});
+                    // one group in three has N and / or First behind a reference to an integer object of the
+                    // document (7.3.10 allows it for any dictionary value; the Producer pads the header up to fval)
+                    if rng.chance(1, 3) {
+                        let count = group["members"].as_array().unwrap().len() as i64;
+                        let which = rng.below(3);
+                        if which != 1 {
+                            next += 1;
+                            plain.push(json!([next, 0, obj_to_file_tla(&Object::Integer(count))]));
+                            live.push((next, 0));
+                            length_objs.push((next, 0));
+                            group["nref"] = json!(next);
+                        }
+                        if which != 0 {
+                            next += 1;
+                            let fval = 16 * count + rng.below(9) as i64;
+                            plain.push(json!([next, 0, obj_to_file_tla(&Object::Integer(fval))]));
+                            live.push((next, 0));
+                            length_objs.push((next, 0));
+                            group["fref"] = json!(next);
+                            group["fval"] = json!(fval);
+                        }
+                    }
+                    comp.push(group);
                 }
             }
             if free_mode {
